@@ -24,10 +24,18 @@
 (*      encryption replaces the selected node by EncryptedData for the given *)
 (*      certificate; decryption opens the first EncryptedData only with the  *)
 (*      matching private key; no output on failure.                         *)
+(*  T8  a Reference may carry further transforms the tool knows; an XPath    *)
+(*      filter transform narrows the node set that is digested.  Level       *)
+(*      "assertion_filtered": the issuer's assertion signature carries such  *)
+(*      a filter, one that leaves the assertion's own content (subject,       *)
+(*      attributes) out -- the tool verifies it whatever that content is.    *)
 (***************************************************************************)
 EXTENDS Naturals, Sequences, FiniteSets, TLC, XmlSecFaults
 
-CONSTANT Level       \* "assertion", "response" or "both": what the issuer signed
+CONSTANT Level       \* "assertion", "response" or "both": what the issuer signed ("assertion_filtered": T8)
+LevelBase == IF Level = "assertion_filtered" THEN "assertion" ELSE Level
+\* the genuine signature of that origin carries a filter transform
+Filtered(o) == Level = "assertion_filtered" /\ o = "A"
 
 NoId == "none"
 Ids  == {"r", "a", "x"}
@@ -46,7 +54,7 @@ VARIABLES kind,      \* Node -> element kinds \cup {"Sig", "free"}
 \* it references the forged element "x" and never verifies under the issuer's key
 SRef(o) == CASE o = "A" -> "a" [] o = "R" -> "r" [] OTHER -> "x"
 SigT(o) == <<"Sig", o, <<>>>>                            \* a signature as it contributes to an enclosing digest
-AsrtPlain == <<"Asrt", "a", "genuine", <<>>>>
+AsrtPlain == <<"Asrt", "a", IF Level = "assertion_filtered" THEN "*" ELSE "genuine", <<>>>>
 AsrtSigned == <<"Asrt", "a", "genuine", <<SigT("A")>>>>
 Dig(o) == IF o = "A" THEN AsrtPlain
           ELSE IF o = "X" THEN <<"never">>
@@ -66,13 +74,15 @@ Parent(n) == CHOOSE p \in Attached : n \in Range(kids[p])
 Without(q, x) == SelectSeq(q, LAMBDA y : y # x)
 ChildrenOfKind(e, k) == SelectSeq(kids[e], LAMBDA c : kind[c] = k)
 
-RECURSIVE Hash(_, _)
-RECURSIVE HashSeq(_, _)
-HashSeq(q, excl) == IF q = <<>> THEN <<>>
-                    ELSE IF Head(q) = excl THEN HashSeq(Tail(q), excl)
-                    ELSE <<Hash(Head(q), excl)>> \o HashSeq(Tail(q), excl)
-Hash(n, excl) == IF kind[n] = "Sig" THEN <<"Sig", sorig[n], HashSeq(kids[n], excl)>>
-                 ELSE <<kind[n], ida[n], content[n], HashSeq(kids[n], excl)>>
+\* f: digested through the filter of T8 -- the content of assertions is not part of what is digested
+RECURSIVE HashF(_, _, _)
+RECURSIVE HashSeqF(_, _, _)
+HashSeqF(q, excl, f) == IF q = <<>> THEN <<>>
+                        ELSE IF Head(q) = excl THEN HashSeqF(Tail(q), excl, f)
+                        ELSE <<HashF(Head(q), excl, f)>> \o HashSeqF(Tail(q), excl, f)
+HashF(n, excl, f) == IF kind[n] = "Sig" THEN <<"Sig", sorig[n], HashSeqF(kids[n], excl, f)>>
+                     ELSE <<kind[n], ida[n], IF f /\ kind[n] = "Asrt" THEN "*" ELSE content[n], HashSeqF(kids[n], excl, f)>>
+Hash(n, excl) == HashF(n, excl, FALSE)
 
 (***************************************************************************)
 (* The external tool (XmlSecTool T1-T4), verification with the IdP's key    *)
@@ -93,7 +103,7 @@ ToolOK(k, i) ==
           /\ ById(k, SRef(sorig[s])) # {}                                              \* T4: reference resolves
           /\ LET t == CHOOSE n \in ById(k, SRef(sorig[s])) : TRUE
              IN /\ t \notin Sub(s)             \* enveloped transform: nothing is left of a target inside the signature
-                /\ Hash(t, s) = Dig(sorig[s])
+                /\ HashF(t, s, Filtered(sorig[s])) = Dig(sorig[s])
 
 ToolTable == {[k |-> k, i |-> i, ok |-> ToolOK(k, i)] : k \in {"Resp", "Asrt"}, i \in Ids \cup {NoId}}
 =============================================================================
